@@ -121,7 +121,7 @@ func (pl *lStatePool) New() *lua.LState {
 	}
 
 	getArgs := func(ls *lua.LState) (evalCmd string, args []string) {
-		evalCmd = ls.GetGlobal("EVAL_CMD").String()
+		evalCmd = luaGetEvalCmd(ls)
 
 		// Trying to work with unknown number of args.
 		// When we see empty arg we call it enough.
@@ -388,6 +388,20 @@ func ConvertToJSON(val lua.LValue) string {
 	return "Unsupported lua type: " + val.Type().String()
 }
 
+// The name of the running eval command (eval, evalro, evalna, ...) selects
+// what tile38.call may do. It is kept in the Lua registry, which scripts
+// cannot reach, and not in a global: a global that exists during the call
+// can be overwritten by the script (EVAL_CMD = 'eval' inside an EVALRO).
+const luaEvalCmdKey = "tile38_eval_cmd"
+
+func luaSetEvalCmd(ls *lua.LState, cmd lua.LValue) {
+	ls.Get(lua.RegistryIndex).(*lua.LTable).RawSetString(luaEvalCmdKey, cmd)
+}
+
+func luaGetEvalCmd(ls *lua.LState) string {
+	return ls.Get(lua.RegistryIndex).(*lua.LTable).RawGetString(luaEvalCmdKey).String()
+}
+
 func luaSetRawGlobals(ls *lua.LState, tbl map[string]lua.LValue) {
 	gt := ls.Get(lua.GlobalsIndex).(*lua.LTable)
 	for key, val := range tbl {
@@ -473,17 +487,18 @@ func (s *Server) cmdEvalUnified(scriptIsSha bool, msg *Message) (res resp.Value,
 			"KEYS":     keysTbl,
 			"ARGV":     argsTbl,
 			"DEADLINE": luaDeadline,
-			"EVAL_CMD": lua.LString(msg.Command()),
 		})
-	// Clear the per-call globals on every exit, including the error returns
-	// below; otherwise the state goes back to the pool with EVAL_CMD still
-	// set and the next WHEREEVAL script using it could run write commands.
+	luaSetEvalCmd(luaState, lua.LString(msg.Command()))
+	// Clear the per-call state on every exit, including the error returns
+	// below; otherwise the state goes back to the pool with the eval command
+	// still set and the next WHEREEVAL script using it could run write
+	// commands.
+	defer luaSetEvalCmd(luaState, lua.LNil)
 	defer luaSetRawGlobals(
 		luaState, map[string]lua.LValue{
 			"KEYS":     lua.LNil,
 			"ARGV":     lua.LNil,
 			"DEADLINE": lua.LNil,
-			"EVAL_CMD": lua.LNil,
 		})
 
 	compiled, ok := s.luascripts.Get(shaSum)
